@@ -495,6 +495,8 @@ def preprocess_tree_sequences(
             result_sequence.append((result_matrix, label_sequence))
     else:
         result_sequence = []
+        # work on a copy: the dictionary may be the caller's (or the fitted one)
+        token_dictionary = dict(token_dictionary)
         if masking in token_dictionary:
             del token_dictionary[masking]
 
@@ -669,6 +671,8 @@ def preprocess_token_sequences(
             )
     else:
         result_sequences = List()
+        # work on a copy: the dictionary may be the caller's (or the fitted one)
+        token_dictionary = dict(token_dictionary)
         if masking in token_dictionary:
             del token_dictionary[masking]
 
@@ -849,6 +853,8 @@ def preprocess_timed_token_sequences(
             )
     else:
         result_sequences = List()
+        # work on a copy: the dictionary may be the caller's (or the fitted one)
+        token_dictionary = dict(token_dictionary)
         if masking in token_dictionary:
             del token_dictionary[masking]
 
@@ -1035,6 +1041,8 @@ def preprocess_multi_token_sequences(
                 )
             full_sequence.append(result_sequences)
     else:
+        # work on a copy: the dictionary may be the caller's (or the fitted one)
+        token_dictionary = dict(token_dictionary)
         if masking in token_dictionary:
             del token_dictionary[masking]
 
